@@ -339,7 +339,9 @@ where
 
     fn on_follows_from(&self, id: &Id, follows_id: &Id, ctx: Context<'_, S>) {
         let span = ctx.span(id).unwrap();
-        let follows = ctx.span(follows_id).unwrap();
+        let Some(follows) = ctx.span(follows_id) else {
+            return; // the followed span may be closed already
+        };
         if let Some(id) = self.captured_id(&span) {
             if let Some(follows_id) = self.captured_id(&follows) {
                 self.lock().on_follows_from(id, follows_id);
